@@ -1455,6 +1455,9 @@ func specFmt(f []FP) string {
 			b.WriteString(p.S)
 		case "int", "safeint":
 			fmt.Fprint(&b, p.I)
+		case "xstr", "xsafestr", "xint":
+			// arguments without a verb: %!(EXTRA type=value, ...)
+			b.WriteString("\x00EXTRA\x00")
 		case "err":
 			t, n := specText(p.R)
 			if n {
@@ -1476,6 +1479,9 @@ func specFmt(f []FP) string {
 
 func hasPlusV(r *R) bool {
 	for _, p := range r.Fmt {
+		if p.Kind == "xstr" || p.Kind == "xsafestr" || p.Kind == "xint" {
+			return true // fmt's EXTRA notation: not modelled by the compositional text spec
+		}
 		if p.Kind == "err" && (p.Verb == "+v" || hasPlusV(p.R)) {
 			return true
 		}
